@@ -20,7 +20,7 @@ LEVEL = "proof"
 MODULE = "Sqfs.Props.C19"
 REQUIRED = ["Sqfs.C19." + t for t in (
     "desc_wellformed", "copy_wellformed", "copy_wellformed_all", "copy_balanced", "copy_fail_safe", "release_safe", "release_safe_either_order",
-    "no_leak", "copy_then_release_restores", "refcount_exact", "copy_equiv", "copy_independent", "copy_buffers_disjoint", "constructed_balanced", "grab_balanced",
+    "no_leak", "copy_then_release_restores", "refcount_exact", "copy_equiv", "copy_same_buffer_sizes", "copy_independent", "copy_buffers_disjoint", "constructed_balanced", "grab_balanced",
     "copy_equiv_idTable", "copy_equiv_fragTable")]
 COMPS = ["gzip", "xz", "lzma", "lz4", "zstd"]
 ENV_KINDS = ("meta", "dir", "data", "xattr")
